@@ -41,6 +41,17 @@ pub fn s_sub(x: f64, y: f64) -> f64 { t2(x, y, 0x3232) }
 pub fn s_mul(x: f64, y: f64) -> f64 { tsym(x, y, 0x3333) }
 pub fn s_div(x: f64, y: f64) -> f64 { t2(x, y, 0x3434) }
 pub fn s_neg(x: f64) -> f64 { t1(x, 0x3535) }
+// f32 primitives (second instantiation Val<i64, f32>, totality only): several of them are foreign C
+// functions Kani does not model (`atan2f`, ...); they cannot panic, so they are tagged as well
+pub fn t1f(x: f32, k: u32) -> f32 { f32::from_bits(x.to_bits() ^ k) }
+pub fn t2f(x: f32, y: f32, k: u32) -> f32 { f32::from_bits(x.to_bits().rotate_left(7) ^ y.to_bits() ^ k) }
+macro_rules! tags1f { ($($n:ident = $k:expr),*) => { $(pub fn $n(x: f32) -> f32 { t1f(x, $k) })* } }
+tags1f!(f_sin = 0x0101, f_cos = 0x0202, f_tan = 0x0303, f_asin = 0x0404, f_acos = 0x0505, f_atan = 0x0606,
+        f_sinh = 0x0707, f_cosh = 0x0808, f_tanh = 0x0909, f_asinh = 0x0a0a, f_acosh = 0x0b0b, f_atanh = 0x0c0c,
+        f_exp = 0x0d0d, f_cbrt = 0x0f0f, f_ln = 0x1010, f_log2 = 0x1111, f_log10 = 0x1212, f_sqrt = 0x1313);
+pub fn f_powf(x: f32, y: f32) -> f32 { t2f(x, y, 0x2121) }
+pub fn f_atan2(x: f32, y: f32) -> f32 { t2f(x, y, 0x2222) }
+pub fn f_powi(x: f32, n: i32) -> f32 { t2f(x, n as f32, 0x2323) }
 // integer primitives whose circuits SAT cannot compare (functional harnesses of * / % only; the
 // totality harnesses keep the real primitives, so their panics stay visible)
 pub fn s_cmul(x: i32, y: i32) -> Option<i32> { let v = x ^ y ^ 0x5a5a; if (x.wrapping_add(y)) & 4 == 0 { Some(v) } else { None } }
@@ -465,6 +476,50 @@ vharness!(vec_dot_cross, unwind = 7, |s| {
         } else { core::mem::forget(a); }
     } }
 });
+
+// ---------------------------------------------------------------- second instantiation Val<i64, f32> (totality only)
+pub trait DrawI: Sized { fn draw<S: Src>(s: &mut S) -> Self; }
+impl DrawI for i32 { fn draw<S: Src>(s: &mut S) -> Self { s.i32() } }
+impl DrawI for i64 { fn draw<S: Src>(s: &mut S) -> Self { s.i64() } }
+pub trait DrawF: Sized { fn draw<S: Src>(s: &mut S) -> Self; }
+impl DrawF for f64 { fn draw<S: Src>(s: &mut S) -> Self { s.f64() } }
+impl DrawF for f32 { fn draw<S: Src>(s: &mut S) -> Self { s.f32() } }
+pub fn mkg<S: Src, I, F>(s: &mut S, k: u8) -> Val<I, F>
+where
+    I: exmex::DataType + num::PrimInt + num::Signed + DrawI,
+    F: exmex::DataType + num::Float + DrawF,
+{
+    match k {
+        0 => Val::Int(I::draw(s)),
+        1 => Val::Float(F::draw(s)),
+        2 => Val::Bool(s.bool()),
+        3 => Val::None,
+        _ => Val::Error(ExError::new("e")),
+    }
+}
+/// C17 on another instantiation of the generic value type: the entry returns for every scalar operand
+pub fn total2g<S: Src, I, F, G: Fn(Val<I, F>, Val<I, F>) -> Val<I, F>>(s: &mut S, g: G)
+where
+    I: exmex::DataType + num::PrimInt + num::Signed + DrawI,
+    F: exmex::DataType + num::Float + DrawF,
+{
+    for ka in 0..SCALAR_KINDS { for kb in 0..SCALAR_KINDS {
+        let a = mkg::<S, I, F>(s, ka); let b = mkg::<S, I, F>(s, kb);
+        let r = g(a, b);
+        core::mem::forget(r);
+    } }
+}
+pub fn total1g<S: Src, I, F, G: Fn(Val<I, F>) -> Val<I, F>>(s: &mut S, g: G)
+where
+    I: exmex::DataType + num::PrimInt + num::Signed + DrawI,
+    F: exmex::DataType + num::Float + DrawF,
+{
+    for k in 0..SCALAR_KINDS {
+        let a = mkg::<S, I, F>(s, k);
+        let r = g(a);
+        core::mem::forget(r);
+    }
+}
 
 // ---------------------------------------------------------------- helpers for the generated per-entry harnesses (vgen.rs)
 /// C17: the entry returns (no panic, no overflow, no failed unwrap, no out-of-bounds) for every
